@@ -12,7 +12,7 @@ from ..core import AnalysisError, norm
 from ..fx import FX, PyTuple
 from .. import boolx as B
 from .. import q
-from ..rules_stream import fx_of, fail_closed, prio, fsm_sanity, s4_hold, short, fsm_txn_state
+from ..rules_stream import fx_of, fail_closed, prio, fsm_sanity, s4_hold, s4_hold_flags, short, fsm_txn_state
 
 ALW = "litex/soc/interconnect/axi/axi_lite_to_wishbone.py"
 AFL = "litex/soc/interconnect/axi/axi_full_to_axi_lite.py"
@@ -54,7 +54,8 @@ def run(ctx):
     ctx.rule("B1", "every bridge FSM: targets defined, no trap state (reset reachable from every state, reset edges of "
                    "ResetInserter not counted)", min_sites=7)
     ctx.rule("B2", "hold until ready: for every state that asserts an outgoing valid/stb and every exit of it, exit => ~valid | "
-                   "ready; each outgoing AXI valid is independent of the same channel's ready", min_sites=40)
+                   "ready; done/skid flags that gate a valid are set only by that channel's handshake and by every such handshake; each "
+                   "outgoing AXI valid is independent of the same channel's ready", min_sites=50)
     ctx.rule("B3", "error discipline: the master-side resp/err of each bridge depends on the slave-side resp/err", min_sites=10)
     ctx.rule("B4", "address units: base_address meets a Wishbone word address only through the data-width derived shift; the "
                    "byte->word slice uses the same shift", min_sites=7)
@@ -76,6 +77,7 @@ def run(ctx):
             ctx.analysed["paths"] += nconf
             ctx.ob("B1", rel, name, f"fsm:{info.alias or info.name}", not problems, "; ".join(d for _, d in problems[:3]), info.node)
             s4_hold(ctx, "B2", fx, name, info, pairs)
+            s4_hold_flags(ctx, "B2", fx, name, info, pairs)
         for vp, rp in pairs:
             if vp.endswith(".stb"):
                 continue
